@@ -18,7 +18,7 @@ THEOREMS_BY_PROP = {
             "DepLogic.M.fromSpecOk_of_lex", "DepLogic.M.pyMergeOk_of_fromSpec", "DepLogic.C02.env0_total",
             "DepLogic.C02.atomFull_good", "DepLogic.C02.atomPvGt_good", "DepLogic.M.pvsem_halfopen",
             "DepLogic.M.render_halfopen", "DepLogic.M.fromClause_short", "DepLogic.C02.atomRevCompat_good",
-            "DepLogic.C02.atomPv3_good"],
+            "DepLogic.C02.atomPv3_good", "DepLogic.C02.atomImpl_good", "DepLogic.C11.reversed_canonical_good"],
     "C03": ["DepLogic.C03.build_sound", "DepLogic.C03.build_sound_final", "DepLogic.M.sound_all", "DepLogic.M.singleSound"],
     "C07": ["DepLogic.C07.str_empty_any", "DepLogic.C07.items_sem", "DepLogic.C07.reparse_sound", "DepLogic.C07.reparse_sound_final",
             "DepLogic.C07.items_ok",
@@ -33,7 +33,7 @@ THEOREMS_BY_PROP = {
             "DepLogic.C15.flatten_pair", "DepLogic.C15.and_single_shape", "DepLogic.C15.or_single_shape",
             "DepLogic.C15.multiOf_flat", "DepLogic.C15.unionOfList_flat", "DepLogic.C15.intersection_flat",
             "DepLogic.C15.unionOf_flat", "DepLogic.C15.and_flat", "DepLogic.C15.or_flat",
-            "DepLogic.C15.exclude_flat_multi", "DepLogic.C15.exclude_flat_union"]}
+            "DepLogic.C15.exclude_flat_multi", "DepLogic.C15.exclude_flat_union", "DepLogic.C15.build_flat_conj"]}
 THEOREMS: list[str] = []
 
 
@@ -144,8 +144,15 @@ def check_roundtrip(run, e: E, m, envs, stats) -> None:
     for env in envs:
         stats["oracle"] += 1
         if ev(back, env) != ev(m, env):
-            run.fail(core.Failure(key + "|" + enc_env(env), f"{text!r} re-parses to {back!r}, which evaluates differently from {m!r}",
-                                  dict(rep, env={k: (sorted(v) if isinstance(v, set) else v) for k, v in env.items()})))
+            f = core.Failure(key + "|" + enc_env(env), f"{text!r} re-parses to {back!r}, which evaluates differently from {m!r}",
+                             dict(rep, env={k: (sorted(v) if isinstance(v, set) else v) for k, v in env.items()}))
+            # re-parsing merges atoms again: the known merge findings (G2 substring lists, D4a) reach the round trip too
+            fam = mk.known_family(e.leaves() + [text], env)
+            if fam:
+                f.family = fam
+                run.fail(f)
+                continue
+            run.fail(f)
             break
 
 
